@@ -312,7 +312,7 @@ Section Proto.
                && type_eqb (lg_type e) want in
     let g e := mkLog (lg_parent e) (lg_slate e) (lg_type e) (lg_confirmed e) (Some excess)
                      (finalize_proof sk pk esig pub sign addr_sk (lg_proof e) p (cx_pp_index c)
-                                     (w_parent w) amount excess)
+                                     (cx_parent c) amount excess)
                      (lg_fee e) (lg_credited e) (lg_debited e) in
     match update_first f g (w_log w) with
     | None => Err ENotFound
